@@ -85,11 +85,7 @@ def build(log_name='build.log'):
         log = p.stdout + p.stderr
         logp = os.path.join(WORK, log_name)
         open(logp, 'w').write(log)
-        vo_ok = {}
-        for v in vfiles():
-            src = os.path.join(COQ, v)
-            vo = src + 'o'
-            vo_ok[v] = os.path.exists(vo) and os.path.getmtime(vo) >= os.path.getmtime(src)
+        vo_ok = fresh_vo(log)
         driver_ok = True
         ml = os.path.join(COQ, 'model.ml')
         if os.path.exists(ml):
@@ -107,6 +103,44 @@ def build(log_name='build.log'):
                 open(logp, 'a').write('\nOCAML BUILD FAILED\n' + q.stdout + q.stderr)
         return dict(vo_ok=vo_ok, log=logp, driver_ok=driver_ok, wall=time.time() - t0, make_rc=p.returncode,
                     assumptions=parse_assumptions(log))
+
+
+def fresh_vo(log=''):
+    """A .vo counts only if it is up to date: newer than its source and than the .vo of everything it
+    depends on (coqdep output in .Makefile.d), recursively - a stale .vo left by a failed compile does not count."""
+    deps = {}
+    try:
+        text = open(os.path.join(COQ, '.Makefile.d')).read().replace('\\\n', ' ')
+    except OSError:
+        text = ''
+    for line in text.split('\n'):
+        if ':' not in line:
+            continue
+        lhs, rhs = line.split(':', 1)
+        targets = [t for t in lhs.split() if t.endswith('.vo')]
+        ds = [d for d in rhs.split() if d.endswith('.vo') and not d.startswith('/')]
+        for t in targets:
+            deps[t[:-1]] = [d[:-1] for d in ds]
+    memo = {}
+
+    def ok(v):
+        if v in memo:
+            return memo[v]
+        memo[v] = False
+        src = os.path.join(COQ, v)
+        vo = src + 'o'
+        if not (os.path.exists(src) and os.path.exists(vo)) or os.path.getmtime(vo) < os.path.getmtime(src):
+            return False
+        if v not in deps:
+            return False
+        for d in deps[v]:
+            if not ok(d) or os.path.getmtime(vo) < os.path.getmtime(os.path.join(COQ, d) + 'o'):
+                return False
+        if ('File "./%s"' % v) in log and 'Error' in log.split('File "./%s"' % v, 1)[1][:3000]:
+            return False
+        memo[v] = True
+        return True
+    return {v: ok(v) for v in vfiles()}
 
 
 def parse_assumptions(log):
